@@ -3,86 +3,50 @@
 #![allow(non_snake_case, clippy::all)]
 use crate::{nd, roundtrip, rejects, W};
 
-/// schema-valid encoding of `Duration` (STRUCT)
-pub fn enc_Duration(w: &mut W) {
-    w.put(&nd::any_u64().to_le_bytes());
+/// TimeRequest shape 0: TimeRequest::now
+fn shape_timerequest_0() {
+    let mut w = W::new();
+    w.put(&[0, 0, 0, 0]); // TimeRequest::now
+    roundtrip::<crux_time::TimeRequest>(&w);
+    crate::nd_cover!(true, "TimeRequest: TimeRequest::now");
 }
-
-/// schema-valid encoding of `Instant` (STRUCT)
-pub fn enc_Instant(w: &mut W) {
+/// TimeRequest shape 1: TimeRequest::notifyAt
+fn shape_timerequest_1() {
+    let mut w = W::new();
+    w.put(&[1, 0, 0, 0]); // TimeRequest::notifyAt
+    w.put(&nd::any_u64().to_le_bytes());
     w.put(&nd::any_u64().to_le_bytes());
     w.put(&nd::any_u32().to_le_bytes());
-}
-
-pub const VARIANTS_TimeRequest: u32 = 4;
-/// schema-valid encoding of `TimeRequest`: u32 variant index, then the variant's fields in declaration order
-pub fn enc_variant_TimeRequest(w: &mut W, variant: u32) {
-    w.put(&variant.to_le_bytes());
-    match variant {
-        0 => { // now
-        }
-        1 => { // notifyAt
-            enc_TimerId(w);
-            enc_Instant(w);
-        }
-        2 => { // notifyAfter
-            enc_TimerId(w);
-            enc_Duration(w);
-        }
-        3 => { // clear
-            enc_TimerId(w);
-        }
-        _ => nd::assume(false),
-    }
-}
-pub fn enc_TimeRequest(w: &mut W) { let v = nd::any_u32(); nd::assume(v < VARIANTS_TimeRequest); enc_variant_TimeRequest(w, v); }
-
-pub const VARIANTS_TimeResponse: u32 = 4;
-/// schema-valid encoding of `TimeResponse`: u32 variant index, then the variant's fields in declaration order
-pub fn enc_variant_TimeResponse(w: &mut W, variant: u32) {
-    w.put(&variant.to_le_bytes());
-    match variant {
-        0 => { // now
-            enc_Instant(w);
-        }
-        1 => { // instantArrived
-            enc_TimerId(w);
-        }
-        2 => { // durationElapsed
-            enc_TimerId(w);
-        }
-        3 => { // cleared
-            enc_TimerId(w);
-        }
-        _ => nd::assume(false),
-    }
-}
-pub fn enc_TimeResponse(w: &mut W) { let v = nd::any_u32(); nd::assume(v < VARIANTS_TimeResponse); enc_variant_TimeResponse(w, v); }
-
-/// schema-valid encoding of `TimerId` (NEWTYPESTRUCT)
-pub fn enc_TimerId(w: &mut W) {
-    w.put(&nd::any_u64().to_le_bytes());
-}
-
-fn case_timerequest<const V: u32>() {
-    let mut w = W::new();
-    enc_variant_TimeRequest(&mut w, V);
     roundtrip::<crux_time::TimeRequest>(&w);
-    crate::nd_cover!(V == 0, "TimeRequest::now round trip");
-    crate::nd_cover!(V == 1, "TimeRequest::notifyAt round trip");
-    crate::nd_cover!(V == 2, "TimeRequest::notifyAfter round trip");
-    crate::nd_cover!(V == 3, "TimeRequest::clear round trip");
+    crate::nd_cover!(true, "TimeRequest: TimeRequest::notifyAt");
 }
-#[cfg_attr(kani, kani::proof, kani::unwind(34))]
+/// TimeRequest shape 2: TimeRequest::notifyAfter
+fn shape_timerequest_2() {
+    let mut w = W::new();
+    w.put(&[2, 0, 0, 0]); // TimeRequest::notifyAfter
+    w.put(&nd::any_u64().to_le_bytes());
+    w.put(&nd::any_u64().to_le_bytes());
+    roundtrip::<crux_time::TimeRequest>(&w);
+    crate::nd_cover!(true, "TimeRequest: TimeRequest::notifyAfter");
+}
+/// TimeRequest shape 3: TimeRequest::clear
+fn shape_timerequest_3() {
+    let mut w = W::new();
+    w.put(&[3, 0, 0, 0]); // TimeRequest::clear
+    w.put(&nd::any_u64().to_le_bytes());
+    roundtrip::<crux_time::TimeRequest>(&w);
+    crate::nd_cover!(true, "TimeRequest: TimeRequest::clear");
+}
+#[cfg_attr(kani, kani::proof, kani::unwind(50))]
 #[cfg_attr(kani, kani::stub(core::fmt::write, crate::fmt_write_nop))]
 pub fn c10_time_timerequest() {
     let v = nd::any_u32();
     match v {
-        0 => case_timerequest::<0>(),
-        1 => case_timerequest::<1>(),
-        2 => case_timerequest::<2>(),
-        3 => case_timerequest::<3>(),
-        _ => {
+        0 => shape_timerequest_0(),
+        1 => shape_timerequest_1(),
+        2 => shape_timerequest_2(),
+        3 => shape_timerequest_3(),
+        _ if v >= 4 => {
             // an index the schema does not define must be rejected, not taken for some variant
             let mut w = W::new();
             w.put(&v.to_le_bytes());
@@ -90,28 +54,53 @@ pub fn c10_time_timerequest() {
             rejects::<crux_time::TimeRequest>(&w);
             crate::nd_cover!(true, "TimeRequest: undefined variant index rejected");
         }
+        _ => nd::assume(false),
     }
 }
 
-fn case_timeresponse<const V: u32>() {
+/// TimeResponse shape 0: TimeResponse::now
+fn shape_timeresponse_0() {
     let mut w = W::new();
-    enc_variant_TimeResponse(&mut w, V);
+    w.put(&[0, 0, 0, 0]); // TimeResponse::now
+    w.put(&nd::any_u64().to_le_bytes());
+    w.put(&nd::any_u32().to_le_bytes());
     roundtrip::<crux_time::TimeResponse>(&w);
-    crate::nd_cover!(V == 0, "TimeResponse::now round trip");
-    crate::nd_cover!(V == 1, "TimeResponse::instantArrived round trip");
-    crate::nd_cover!(V == 2, "TimeResponse::durationElapsed round trip");
-    crate::nd_cover!(V == 3, "TimeResponse::cleared round trip");
+    crate::nd_cover!(true, "TimeResponse: TimeResponse::now");
 }
-#[cfg_attr(kani, kani::proof, kani::unwind(34))]
+/// TimeResponse shape 1: TimeResponse::instantArrived
+fn shape_timeresponse_1() {
+    let mut w = W::new();
+    w.put(&[1, 0, 0, 0]); // TimeResponse::instantArrived
+    w.put(&nd::any_u64().to_le_bytes());
+    roundtrip::<crux_time::TimeResponse>(&w);
+    crate::nd_cover!(true, "TimeResponse: TimeResponse::instantArrived");
+}
+/// TimeResponse shape 2: TimeResponse::durationElapsed
+fn shape_timeresponse_2() {
+    let mut w = W::new();
+    w.put(&[2, 0, 0, 0]); // TimeResponse::durationElapsed
+    w.put(&nd::any_u64().to_le_bytes());
+    roundtrip::<crux_time::TimeResponse>(&w);
+    crate::nd_cover!(true, "TimeResponse: TimeResponse::durationElapsed");
+}
+/// TimeResponse shape 3: TimeResponse::cleared
+fn shape_timeresponse_3() {
+    let mut w = W::new();
+    w.put(&[3, 0, 0, 0]); // TimeResponse::cleared
+    w.put(&nd::any_u64().to_le_bytes());
+    roundtrip::<crux_time::TimeResponse>(&w);
+    crate::nd_cover!(true, "TimeResponse: TimeResponse::cleared");
+}
+#[cfg_attr(kani, kani::proof, kani::unwind(50))]
 #[cfg_attr(kani, kani::stub(core::fmt::write, crate::fmt_write_nop))]
 pub fn c10_time_timeresponse() {
     let v = nd::any_u32();
     match v {
-        0 => case_timeresponse::<0>(),
-        1 => case_timeresponse::<1>(),
-        2 => case_timeresponse::<2>(),
-        3 => case_timeresponse::<3>(),
-        _ => {
+        0 => shape_timeresponse_0(),
+        1 => shape_timeresponse_1(),
+        2 => shape_timeresponse_2(),
+        3 => shape_timeresponse_3(),
+        _ if v >= 4 => {
             // an index the schema does not define must be rejected, not taken for some variant
             let mut w = W::new();
             w.put(&v.to_le_bytes());
@@ -119,34 +108,513 @@ pub fn c10_time_timeresponse() {
             rejects::<crux_time::TimeResponse>(&w);
             crate::nd_cover!(true, "TimeResponse: undefined variant index rejected");
         }
+        _ => nd::assume(false),
     }
 }
 
-#[cfg_attr(kani, kani::proof, kani::unwind(34))]
+/// Instant shape 0: fixed layout
+fn shape_instant_0() {
+    let mut w = W::new();
+    w.put(&nd::any_u64().to_le_bytes());
+    w.put(&nd::any_u32().to_le_bytes());
+    roundtrip::<crux_time::Instant>(&w);
+    crate::nd_cover!(true, "Instant: round trip");
+}
+#[cfg_attr(kani, kani::proof, kani::unwind(50))]
 #[cfg_attr(kani, kani::stub(core::fmt::write, crate::fmt_write_nop))]
 pub fn c10_time_instant() {
-    let mut w = W::new();
-    enc_Instant(&mut w);
-    roundtrip::<crux_time::Instant>(&w);
-    crate::nd_cover!(true, "Instant round trip");
+    shape_instant_0();
 }
 
-#[cfg_attr(kani, kani::proof, kani::unwind(34))]
+/// Duration shape 0: fixed layout
+fn shape_duration_0() {
+    let mut w = W::new();
+    w.put(&nd::any_u64().to_le_bytes());
+    roundtrip::<crux_time::Duration>(&w);
+    crate::nd_cover!(true, "Duration: round trip");
+}
+#[cfg_attr(kani, kani::proof, kani::unwind(50))]
 #[cfg_attr(kani, kani::stub(core::fmt::write, crate::fmt_write_nop))]
 pub fn c10_time_duration() {
-    let mut w = W::new();
-    enc_Duration(&mut w);
-    roundtrip::<crux_time::Duration>(&w);
-    crate::nd_cover!(true, "Duration round trip");
+    shape_duration_0();
 }
 
-#[cfg_attr(kani, kani::proof, kani::unwind(34))]
+/// TimerId shape 0: fixed layout
+fn shape_timerid_0() {
+    let mut w = W::new();
+    w.put(&nd::any_u64().to_le_bytes());
+    roundtrip::<crux_time::TimerId>(&w);
+    crate::nd_cover!(true, "TimerId: round trip");
+}
+#[cfg_attr(kani, kani::proof, kani::unwind(50))]
 #[cfg_attr(kani, kani::stub(core::fmt::write, crate::fmt_write_nop))]
 pub fn c10_time_timerid() {
+    shape_timerid_0();
+}
+
+/// KeyValueOperation shape 0: KeyValueOperation::Get str[0]
+fn shape_keyvalueoperation_0() {
     let mut w = W::new();
-    enc_TimerId(&mut w);
-    roundtrip::<crux_time::TimerId>(&w);
-    crate::nd_cover!(true, "TimerId round trip");
+    w.put(&[0, 0, 0, 0]); // KeyValueOperation::Get
+    w.put(&[0, 0, 0, 0, 0, 0, 0, 0]); // str[0]
+    roundtrip::<crux_kv::KeyValueOperation>(&w);
+    crate::nd_cover!(true, "KeyValueOperation: KeyValueOperation::Get str[0]");
+}
+/// KeyValueOperation shape 1: KeyValueOperation::Get str[1]
+fn shape_keyvalueoperation_1() {
+    let mut w = W::new();
+    w.put(&[0, 0, 0, 0]); // KeyValueOperation::Get
+    w.put(&[1, 0, 0, 0, 0, 0, 0, 0]); // str[1]
+    { let b = nd::any_u8(); nd::assume(b < 0x80); w.put(&[b]); }
+    roundtrip::<crux_kv::KeyValueOperation>(&w);
+    crate::nd_cover!(true, "KeyValueOperation: KeyValueOperation::Get str[1]");
+}
+/// KeyValueOperation shape 2: KeyValueOperation::Set str[0] bytes[0]
+fn shape_keyvalueoperation_2() {
+    let mut w = W::new();
+    w.put(&[1, 0, 0, 0]); // KeyValueOperation::Set
+    w.put(&[0, 0, 0, 0, 0, 0, 0, 0]); // str[0]
+    w.put(&[0, 0, 0, 0, 0, 0, 0, 0]); // bytes[0]
+    roundtrip::<crux_kv::KeyValueOperation>(&w);
+    crate::nd_cover!(true, "KeyValueOperation: KeyValueOperation::Set str[0] bytes[0]");
+}
+/// KeyValueOperation shape 3: KeyValueOperation::Set str[0] bytes[1]
+fn shape_keyvalueoperation_3() {
+    let mut w = W::new();
+    w.put(&[1, 0, 0, 0]); // KeyValueOperation::Set
+    w.put(&[0, 0, 0, 0, 0, 0, 0, 0]); // str[0]
+    w.put(&[1, 0, 0, 0, 0, 0, 0, 0]); // bytes[1]
+    w.put(&[nd::any_u8()]);
+    roundtrip::<crux_kv::KeyValueOperation>(&w);
+    crate::nd_cover!(true, "KeyValueOperation: KeyValueOperation::Set str[0] bytes[1]");
+}
+/// KeyValueOperation shape 4: KeyValueOperation::Set str[1] bytes[0]
+fn shape_keyvalueoperation_4() {
+    let mut w = W::new();
+    w.put(&[1, 0, 0, 0]); // KeyValueOperation::Set
+    w.put(&[1, 0, 0, 0, 0, 0, 0, 0]); // str[1]
+    { let b = nd::any_u8(); nd::assume(b < 0x80); w.put(&[b]); }
+    w.put(&[0, 0, 0, 0, 0, 0, 0, 0]); // bytes[0]
+    roundtrip::<crux_kv::KeyValueOperation>(&w);
+    crate::nd_cover!(true, "KeyValueOperation: KeyValueOperation::Set str[1] bytes[0]");
+}
+/// KeyValueOperation shape 5: KeyValueOperation::Set str[1] bytes[1]
+fn shape_keyvalueoperation_5() {
+    let mut w = W::new();
+    w.put(&[1, 0, 0, 0]); // KeyValueOperation::Set
+    w.put(&[1, 0, 0, 0, 0, 0, 0, 0]); // str[1]
+    { let b = nd::any_u8(); nd::assume(b < 0x80); w.put(&[b]); }
+    w.put(&[1, 0, 0, 0, 0, 0, 0, 0]); // bytes[1]
+    w.put(&[nd::any_u8()]);
+    roundtrip::<crux_kv::KeyValueOperation>(&w);
+    crate::nd_cover!(true, "KeyValueOperation: KeyValueOperation::Set str[1] bytes[1]");
+}
+/// KeyValueOperation shape 6: KeyValueOperation::Delete str[0]
+fn shape_keyvalueoperation_6() {
+    let mut w = W::new();
+    w.put(&[2, 0, 0, 0]); // KeyValueOperation::Delete
+    w.put(&[0, 0, 0, 0, 0, 0, 0, 0]); // str[0]
+    roundtrip::<crux_kv::KeyValueOperation>(&w);
+    crate::nd_cover!(true, "KeyValueOperation: KeyValueOperation::Delete str[0]");
+}
+/// KeyValueOperation shape 7: KeyValueOperation::Delete str[1]
+fn shape_keyvalueoperation_7() {
+    let mut w = W::new();
+    w.put(&[2, 0, 0, 0]); // KeyValueOperation::Delete
+    w.put(&[1, 0, 0, 0, 0, 0, 0, 0]); // str[1]
+    { let b = nd::any_u8(); nd::assume(b < 0x80); w.put(&[b]); }
+    roundtrip::<crux_kv::KeyValueOperation>(&w);
+    crate::nd_cover!(true, "KeyValueOperation: KeyValueOperation::Delete str[1]");
+}
+/// KeyValueOperation shape 8: KeyValueOperation::Exists str[0]
+fn shape_keyvalueoperation_8() {
+    let mut w = W::new();
+    w.put(&[3, 0, 0, 0]); // KeyValueOperation::Exists
+    w.put(&[0, 0, 0, 0, 0, 0, 0, 0]); // str[0]
+    roundtrip::<crux_kv::KeyValueOperation>(&w);
+    crate::nd_cover!(true, "KeyValueOperation: KeyValueOperation::Exists str[0]");
+}
+/// KeyValueOperation shape 9: KeyValueOperation::Exists str[1]
+fn shape_keyvalueoperation_9() {
+    let mut w = W::new();
+    w.put(&[3, 0, 0, 0]); // KeyValueOperation::Exists
+    w.put(&[1, 0, 0, 0, 0, 0, 0, 0]); // str[1]
+    { let b = nd::any_u8(); nd::assume(b < 0x80); w.put(&[b]); }
+    roundtrip::<crux_kv::KeyValueOperation>(&w);
+    crate::nd_cover!(true, "KeyValueOperation: KeyValueOperation::Exists str[1]");
+}
+/// KeyValueOperation shape 10: KeyValueOperation::ListKeys str[0]
+fn shape_keyvalueoperation_10() {
+    let mut w = W::new();
+    w.put(&[4, 0, 0, 0]); // KeyValueOperation::ListKeys
+    w.put(&[0, 0, 0, 0, 0, 0, 0, 0]); // str[0]
+    w.put(&nd::any_u64().to_le_bytes());
+    roundtrip::<crux_kv::KeyValueOperation>(&w);
+    crate::nd_cover!(true, "KeyValueOperation: KeyValueOperation::ListKeys str[0]");
+}
+/// KeyValueOperation shape 11: KeyValueOperation::ListKeys str[1]
+fn shape_keyvalueoperation_11() {
+    let mut w = W::new();
+    w.put(&[4, 0, 0, 0]); // KeyValueOperation::ListKeys
+    w.put(&[1, 0, 0, 0, 0, 0, 0, 0]); // str[1]
+    { let b = nd::any_u8(); nd::assume(b < 0x80); w.put(&[b]); }
+    w.put(&nd::any_u64().to_le_bytes());
+    roundtrip::<crux_kv::KeyValueOperation>(&w);
+    crate::nd_cover!(true, "KeyValueOperation: KeyValueOperation::ListKeys str[1]");
+}
+#[cfg_attr(kani, kani::proof, kani::unwind(50))]
+#[cfg_attr(kani, kani::stub(core::fmt::write, crate::fmt_write_nop))]
+pub fn c10_kv_keyvalueoperation_1() {
+    let v = nd::any_u32();
+    match v {
+        0 => shape_keyvalueoperation_0(),
+        1 => shape_keyvalueoperation_2(),
+        2 => shape_keyvalueoperation_3(),
+        3 => shape_keyvalueoperation_6(),
+        _ if v >= 5 => {
+            // an index the schema does not define must be rejected, not taken for some variant
+            let mut w = W::new();
+            w.put(&v.to_le_bytes());
+            w.put(&[0u8; 24]);
+            rejects::<crux_kv::KeyValueOperation>(&w);
+            crate::nd_cover!(true, "KeyValueOperation: undefined variant index rejected");
+        }
+        _ => nd::assume(false),
+    }
+}
+#[cfg_attr(kani, kani::proof, kani::unwind(50))]
+#[cfg_attr(kani, kani::stub(core::fmt::write, crate::fmt_write_nop))]
+pub fn c10_kv_keyvalueoperation_2() {
+    let v = nd::any_u32();
+    match v {
+        0 => shape_keyvalueoperation_8(),
+        1 => shape_keyvalueoperation_10(),
+        _ => nd::assume(false),
+    }
+}
+#[cfg_attr(kani, kani::proof, kani::unwind(50))]
+#[cfg_attr(kani, kani::stub(core::fmt::write, crate::fmt_write_nop))]
+pub fn c10_kv_keyvalueoperation_3() {
+    let v = nd::any_u32();
+    match v {
+        0 => shape_keyvalueoperation_1(),
+        _ => nd::assume(false),
+    }
+}
+#[cfg_attr(kani, kani::proof, kani::unwind(50))]
+#[cfg_attr(kani, kani::stub(core::fmt::write, crate::fmt_write_nop))]
+pub fn c10_kv_keyvalueoperation_4() {
+    let v = nd::any_u32();
+    match v {
+        0 => shape_keyvalueoperation_4(),
+        _ => nd::assume(false),
+    }
+}
+#[cfg_attr(kani, kani::proof, kani::unwind(50))]
+#[cfg_attr(kani, kani::stub(core::fmt::write, crate::fmt_write_nop))]
+pub fn c10_kv_keyvalueoperation_5() {
+    let v = nd::any_u32();
+    match v {
+        0 => shape_keyvalueoperation_5(),
+        _ => nd::assume(false),
+    }
+}
+#[cfg_attr(kani, kani::proof, kani::unwind(50))]
+#[cfg_attr(kani, kani::stub(core::fmt::write, crate::fmt_write_nop))]
+pub fn c10_kv_keyvalueoperation_6() {
+    let v = nd::any_u32();
+    match v {
+        0 => shape_keyvalueoperation_7(),
+        _ => nd::assume(false),
+    }
+}
+#[cfg_attr(kani, kani::proof, kani::unwind(50))]
+#[cfg_attr(kani, kani::stub(core::fmt::write, crate::fmt_write_nop))]
+pub fn c10_kv_keyvalueoperation_7() {
+    let v = nd::any_u32();
+    match v {
+        0 => shape_keyvalueoperation_9(),
+        _ => nd::assume(false),
+    }
+}
+#[cfg_attr(kani, kani::proof, kani::unwind(50))]
+#[cfg_attr(kani, kani::stub(core::fmt::write, crate::fmt_write_nop))]
+pub fn c10_kv_keyvalueoperation_8() {
+    let v = nd::any_u32();
+    match v {
+        0 => shape_keyvalueoperation_11(),
+        _ => nd::assume(false),
+    }
+}
+
+/// KeyValueResult shape 0: KeyValueResult::Ok KeyValueResponse::Get Value::None
+fn shape_keyvalueresult_0() {
+    let mut w = W::new();
+    w.put(&[0, 0, 0, 0]); // KeyValueResult::Ok
+    w.put(&[0, 0, 0, 0]); // KeyValueResponse::Get
+    w.put(&[0, 0, 0, 0]); // Value::None
+    roundtrip::<crux_kv::KeyValueResult>(&w);
+    crate::nd_cover!(true, "KeyValueResult: KeyValueResult::Ok KeyValueResponse::Get Value::None");
+}
+/// KeyValueResult shape 1: KeyValueResult::Ok KeyValueResponse::Get Value::Bytes bytes[0]
+fn shape_keyvalueresult_1() {
+    let mut w = W::new();
+    w.put(&[0, 0, 0, 0]); // KeyValueResult::Ok
+    w.put(&[0, 0, 0, 0]); // KeyValueResponse::Get
+    w.put(&[1, 0, 0, 0]); // Value::Bytes
+    w.put(&[0, 0, 0, 0, 0, 0, 0, 0]); // bytes[0]
+    roundtrip::<crux_kv::KeyValueResult>(&w);
+    crate::nd_cover!(true, "KeyValueResult: KeyValueResult::Ok KeyValueResponse::Get Value::Bytes bytes[0]");
+}
+/// KeyValueResult shape 2: KeyValueResult::Ok KeyValueResponse::Get Value::Bytes bytes[1]
+fn shape_keyvalueresult_2() {
+    let mut w = W::new();
+    w.put(&[0, 0, 0, 0]); // KeyValueResult::Ok
+    w.put(&[0, 0, 0, 0]); // KeyValueResponse::Get
+    w.put(&[1, 0, 0, 0]); // Value::Bytes
+    w.put(&[1, 0, 0, 0, 0, 0, 0, 0]); // bytes[1]
+    w.put(&[nd::any_u8()]);
+    roundtrip::<crux_kv::KeyValueResult>(&w);
+    crate::nd_cover!(true, "KeyValueResult: KeyValueResult::Ok KeyValueResponse::Get Value::Bytes bytes[1]");
+}
+/// KeyValueResult shape 3: KeyValueResult::Ok KeyValueResponse::Set Value::None
+fn shape_keyvalueresult_3() {
+    let mut w = W::new();
+    w.put(&[0, 0, 0, 0]); // KeyValueResult::Ok
+    w.put(&[1, 0, 0, 0]); // KeyValueResponse::Set
+    w.put(&[0, 0, 0, 0]); // Value::None
+    roundtrip::<crux_kv::KeyValueResult>(&w);
+    crate::nd_cover!(true, "KeyValueResult: KeyValueResult::Ok KeyValueResponse::Set Value::None");
+}
+/// KeyValueResult shape 4: KeyValueResult::Ok KeyValueResponse::Set Value::Bytes bytes[0]
+fn shape_keyvalueresult_4() {
+    let mut w = W::new();
+    w.put(&[0, 0, 0, 0]); // KeyValueResult::Ok
+    w.put(&[1, 0, 0, 0]); // KeyValueResponse::Set
+    w.put(&[1, 0, 0, 0]); // Value::Bytes
+    w.put(&[0, 0, 0, 0, 0, 0, 0, 0]); // bytes[0]
+    roundtrip::<crux_kv::KeyValueResult>(&w);
+    crate::nd_cover!(true, "KeyValueResult: KeyValueResult::Ok KeyValueResponse::Set Value::Bytes bytes[0]");
+}
+/// KeyValueResult shape 5: KeyValueResult::Ok KeyValueResponse::Set Value::Bytes bytes[1]
+fn shape_keyvalueresult_5() {
+    let mut w = W::new();
+    w.put(&[0, 0, 0, 0]); // KeyValueResult::Ok
+    w.put(&[1, 0, 0, 0]); // KeyValueResponse::Set
+    w.put(&[1, 0, 0, 0]); // Value::Bytes
+    w.put(&[1, 0, 0, 0, 0, 0, 0, 0]); // bytes[1]
+    w.put(&[nd::any_u8()]);
+    roundtrip::<crux_kv::KeyValueResult>(&w);
+    crate::nd_cover!(true, "KeyValueResult: KeyValueResult::Ok KeyValueResponse::Set Value::Bytes bytes[1]");
+}
+/// KeyValueResult shape 6: KeyValueResult::Ok KeyValueResponse::Delete Value::None
+fn shape_keyvalueresult_6() {
+    let mut w = W::new();
+    w.put(&[0, 0, 0, 0]); // KeyValueResult::Ok
+    w.put(&[2, 0, 0, 0]); // KeyValueResponse::Delete
+    w.put(&[0, 0, 0, 0]); // Value::None
+    roundtrip::<crux_kv::KeyValueResult>(&w);
+    crate::nd_cover!(true, "KeyValueResult: KeyValueResult::Ok KeyValueResponse::Delete Value::None");
+}
+/// KeyValueResult shape 7: KeyValueResult::Ok KeyValueResponse::Delete Value::Bytes bytes[0]
+fn shape_keyvalueresult_7() {
+    let mut w = W::new();
+    w.put(&[0, 0, 0, 0]); // KeyValueResult::Ok
+    w.put(&[2, 0, 0, 0]); // KeyValueResponse::Delete
+    w.put(&[1, 0, 0, 0]); // Value::Bytes
+    w.put(&[0, 0, 0, 0, 0, 0, 0, 0]); // bytes[0]
+    roundtrip::<crux_kv::KeyValueResult>(&w);
+    crate::nd_cover!(true, "KeyValueResult: KeyValueResult::Ok KeyValueResponse::Delete Value::Bytes bytes[0]");
+}
+/// KeyValueResult shape 8: KeyValueResult::Ok KeyValueResponse::Delete Value::Bytes bytes[1]
+fn shape_keyvalueresult_8() {
+    let mut w = W::new();
+    w.put(&[0, 0, 0, 0]); // KeyValueResult::Ok
+    w.put(&[2, 0, 0, 0]); // KeyValueResponse::Delete
+    w.put(&[1, 0, 0, 0]); // Value::Bytes
+    w.put(&[1, 0, 0, 0, 0, 0, 0, 0]); // bytes[1]
+    w.put(&[nd::any_u8()]);
+    roundtrip::<crux_kv::KeyValueResult>(&w);
+    crate::nd_cover!(true, "KeyValueResult: KeyValueResult::Ok KeyValueResponse::Delete Value::Bytes bytes[1]");
+}
+/// KeyValueResult shape 9: KeyValueResult::Ok KeyValueResponse::Exists
+fn shape_keyvalueresult_9() {
+    let mut w = W::new();
+    w.put(&[0, 0, 0, 0]); // KeyValueResult::Ok
+    w.put(&[3, 0, 0, 0]); // KeyValueResponse::Exists
+    w.put(&[u8::from(nd::any_bool())]);
+    roundtrip::<crux_kv::KeyValueResult>(&w);
+    crate::nd_cover!(true, "KeyValueResult: KeyValueResult::Ok KeyValueResponse::Exists");
+}
+/// KeyValueResult shape 10: KeyValueResult::Ok KeyValueResponse::ListKeys seq[0]
+fn shape_keyvalueresult_10() {
+    let mut w = W::new();
+    w.put(&[0, 0, 0, 0]); // KeyValueResult::Ok
+    w.put(&[4, 0, 0, 0]); // KeyValueResponse::ListKeys
+    w.put(&[0, 0, 0, 0, 0, 0, 0, 0]); // seq[0]
+    w.put(&nd::any_u64().to_le_bytes());
+    roundtrip::<crux_kv::KeyValueResult>(&w);
+    crate::nd_cover!(true, "KeyValueResult: KeyValueResult::Ok KeyValueResponse::ListKeys seq[0]");
+}
+/// KeyValueResult shape 11: KeyValueResult::Ok KeyValueResponse::ListKeys seq[1] str[0]
+fn shape_keyvalueresult_11() {
+    let mut w = W::new();
+    w.put(&[0, 0, 0, 0]); // KeyValueResult::Ok
+    w.put(&[4, 0, 0, 0]); // KeyValueResponse::ListKeys
+    w.put(&[1, 0, 0, 0, 0, 0, 0, 0]); // seq[1]
+    w.put(&[0, 0, 0, 0, 0, 0, 0, 0]); // str[0]
+    w.put(&nd::any_u64().to_le_bytes());
+    roundtrip::<crux_kv::KeyValueResult>(&w);
+    crate::nd_cover!(true, "KeyValueResult: KeyValueResult::Ok KeyValueResponse::ListKeys seq[1] str[0]");
+}
+/// KeyValueResult shape 12: KeyValueResult::Ok KeyValueResponse::ListKeys seq[1] str[1]
+fn shape_keyvalueresult_12() {
+    let mut w = W::new();
+    w.put(&[0, 0, 0, 0]); // KeyValueResult::Ok
+    w.put(&[4, 0, 0, 0]); // KeyValueResponse::ListKeys
+    w.put(&[1, 0, 0, 0, 0, 0, 0, 0]); // seq[1]
+    w.put(&[1, 0, 0, 0, 0, 0, 0, 0]); // str[1]
+    { let b = nd::any_u8(); nd::assume(b < 0x80); w.put(&[b]); }
+    w.put(&nd::any_u64().to_le_bytes());
+    roundtrip::<crux_kv::KeyValueResult>(&w);
+    crate::nd_cover!(true, "KeyValueResult: KeyValueResult::Ok KeyValueResponse::ListKeys seq[1] str[1]");
+}
+/// KeyValueResult shape 13: KeyValueResult::Err KeyValueError::io str[0]
+fn shape_keyvalueresult_13() {
+    let mut w = W::new();
+    w.put(&[1, 0, 0, 0]); // KeyValueResult::Err
+    w.put(&[0, 0, 0, 0]); // KeyValueError::io
+    w.put(&[0, 0, 0, 0, 0, 0, 0, 0]); // str[0]
+    roundtrip::<crux_kv::KeyValueResult>(&w);
+    crate::nd_cover!(true, "KeyValueResult: KeyValueResult::Err KeyValueError::io str[0]");
+}
+/// KeyValueResult shape 14: KeyValueResult::Err KeyValueError::io str[1]
+fn shape_keyvalueresult_14() {
+    let mut w = W::new();
+    w.put(&[1, 0, 0, 0]); // KeyValueResult::Err
+    w.put(&[0, 0, 0, 0]); // KeyValueError::io
+    w.put(&[1, 0, 0, 0, 0, 0, 0, 0]); // str[1]
+    { let b = nd::any_u8(); nd::assume(b < 0x80); w.put(&[b]); }
+    roundtrip::<crux_kv::KeyValueResult>(&w);
+    crate::nd_cover!(true, "KeyValueResult: KeyValueResult::Err KeyValueError::io str[1]");
+}
+/// KeyValueResult shape 15: KeyValueResult::Err KeyValueError::timeout
+fn shape_keyvalueresult_15() {
+    let mut w = W::new();
+    w.put(&[1, 0, 0, 0]); // KeyValueResult::Err
+    w.put(&[1, 0, 0, 0]); // KeyValueError::timeout
+    roundtrip::<crux_kv::KeyValueResult>(&w);
+    crate::nd_cover!(true, "KeyValueResult: KeyValueResult::Err KeyValueError::timeout");
+}
+/// KeyValueResult shape 16: KeyValueResult::Err KeyValueError::cursorNotFound
+fn shape_keyvalueresult_16() {
+    let mut w = W::new();
+    w.put(&[1, 0, 0, 0]); // KeyValueResult::Err
+    w.put(&[2, 0, 0, 0]); // KeyValueError::cursorNotFound
+    roundtrip::<crux_kv::KeyValueResult>(&w);
+    crate::nd_cover!(true, "KeyValueResult: KeyValueResult::Err KeyValueError::cursorNotFound");
+}
+/// KeyValueResult shape 17: KeyValueResult::Err KeyValueError::other str[0]
+fn shape_keyvalueresult_17() {
+    let mut w = W::new();
+    w.put(&[1, 0, 0, 0]); // KeyValueResult::Err
+    w.put(&[3, 0, 0, 0]); // KeyValueError::other
+    w.put(&[0, 0, 0, 0, 0, 0, 0, 0]); // str[0]
+    roundtrip::<crux_kv::KeyValueResult>(&w);
+    crate::nd_cover!(true, "KeyValueResult: KeyValueResult::Err KeyValueError::other str[0]");
+}
+/// KeyValueResult shape 18: KeyValueResult::Err KeyValueError::other str[1]
+fn shape_keyvalueresult_18() {
+    let mut w = W::new();
+    w.put(&[1, 0, 0, 0]); // KeyValueResult::Err
+    w.put(&[3, 0, 0, 0]); // KeyValueError::other
+    w.put(&[1, 0, 0, 0, 0, 0, 0, 0]); // str[1]
+    { let b = nd::any_u8(); nd::assume(b < 0x80); w.put(&[b]); }
+    roundtrip::<crux_kv::KeyValueResult>(&w);
+    crate::nd_cover!(true, "KeyValueResult: KeyValueResult::Err KeyValueError::other str[1]");
+}
+#[cfg_attr(kani, kani::proof, kani::unwind(50))]
+#[cfg_attr(kani, kani::stub(core::fmt::write, crate::fmt_write_nop))]
+pub fn c10_kv_keyvalueresult_1() {
+    let v = nd::any_u32();
+    match v {
+        0 => shape_keyvalueresult_0(),
+        1 => shape_keyvalueresult_1(),
+        2 => shape_keyvalueresult_2(),
+        3 => shape_keyvalueresult_3(),
+        _ if v >= 4 => {
+            // an index the schema does not define must be rejected, not taken for some variant
+            let mut w = W::new();
+            w.put(&v.to_le_bytes());
+            w.put(&[0u8; 24]);
+            rejects::<crux_kv::KeyValueResult>(&w);
+            crate::nd_cover!(true, "KeyValueResult: undefined variant index rejected");
+        }
+        _ => nd::assume(false),
+    }
+}
+#[cfg_attr(kani, kani::proof, kani::unwind(50))]
+#[cfg_attr(kani, kani::stub(core::fmt::write, crate::fmt_write_nop))]
+pub fn c10_kv_keyvalueresult_2() {
+    let v = nd::any_u32();
+    match v {
+        0 => shape_keyvalueresult_4(),
+        1 => shape_keyvalueresult_5(),
+        2 => shape_keyvalueresult_6(),
+        3 => shape_keyvalueresult_7(),
+        _ => nd::assume(false),
+    }
+}
+#[cfg_attr(kani, kani::proof, kani::unwind(50))]
+#[cfg_attr(kani, kani::stub(core::fmt::write, crate::fmt_write_nop))]
+pub fn c10_kv_keyvalueresult_3() {
+    let v = nd::any_u32();
+    match v {
+        0 => shape_keyvalueresult_8(),
+        1 => shape_keyvalueresult_9(),
+        2 => shape_keyvalueresult_10(),
+        3 => shape_keyvalueresult_11(),
+        _ => nd::assume(false),
+    }
+}
+#[cfg_attr(kani, kani::proof, kani::unwind(50))]
+#[cfg_attr(kani, kani::stub(core::fmt::write, crate::fmt_write_nop))]
+pub fn c10_kv_keyvalueresult_4() {
+    let v = nd::any_u32();
+    match v {
+        0 => shape_keyvalueresult_13(),
+        1 => shape_keyvalueresult_15(),
+        2 => shape_keyvalueresult_16(),
+        3 => shape_keyvalueresult_17(),
+        _ => nd::assume(false),
+    }
+}
+#[cfg_attr(kani, kani::proof, kani::unwind(50))]
+#[cfg_attr(kani, kani::stub(core::fmt::write, crate::fmt_write_nop))]
+pub fn c10_kv_keyvalueresult_5() {
+    let v = nd::any_u32();
+    match v {
+        0 => shape_keyvalueresult_12(),
+        _ => nd::assume(false),
+    }
+}
+#[cfg_attr(kani, kani::proof, kani::unwind(50))]
+#[cfg_attr(kani, kani::stub(core::fmt::write, crate::fmt_write_nop))]
+pub fn c10_kv_keyvalueresult_6() {
+    let v = nd::any_u32();
+    match v {
+        0 => shape_keyvalueresult_14(),
+        _ => nd::assume(false),
+    }
+}
+#[cfg_attr(kani, kani::proof, kani::unwind(50))]
+#[cfg_attr(kani, kani::stub(core::fmt::write, crate::fmt_write_nop))]
+pub fn c10_kv_keyvalueresult_7() {
+    let v = nd::any_u32();
+    match v {
+        0 => shape_keyvalueresult_18(),
+        _ => nd::assume(false),
+    }
 }
 
 #[cfg(not(kani))]
@@ -156,4 +624,19 @@ pub const GENERATED_HARNESSES: &[(&str, fn())] = &[
     ("c10_time_instant", c10_time_instant),
     ("c10_time_duration", c10_time_duration),
     ("c10_time_timerid", c10_time_timerid),
+    ("c10_kv_keyvalueoperation_1", c10_kv_keyvalueoperation_1),
+    ("c10_kv_keyvalueoperation_2", c10_kv_keyvalueoperation_2),
+    ("c10_kv_keyvalueoperation_3", c10_kv_keyvalueoperation_3),
+    ("c10_kv_keyvalueoperation_4", c10_kv_keyvalueoperation_4),
+    ("c10_kv_keyvalueoperation_5", c10_kv_keyvalueoperation_5),
+    ("c10_kv_keyvalueoperation_6", c10_kv_keyvalueoperation_6),
+    ("c10_kv_keyvalueoperation_7", c10_kv_keyvalueoperation_7),
+    ("c10_kv_keyvalueoperation_8", c10_kv_keyvalueoperation_8),
+    ("c10_kv_keyvalueresult_1", c10_kv_keyvalueresult_1),
+    ("c10_kv_keyvalueresult_2", c10_kv_keyvalueresult_2),
+    ("c10_kv_keyvalueresult_3", c10_kv_keyvalueresult_3),
+    ("c10_kv_keyvalueresult_4", c10_kv_keyvalueresult_4),
+    ("c10_kv_keyvalueresult_5", c10_kv_keyvalueresult_5),
+    ("c10_kv_keyvalueresult_6", c10_kv_keyvalueresult_6),
+    ("c10_kv_keyvalueresult_7", c10_kv_keyvalueresult_7),
 ];
